@@ -26,6 +26,7 @@ KEY_ARENA = "arena_soft_reset_alloc_skips_retained_block"
 KEY_FMT = "string_format_exact_fit_drops_last_char"
 KEY_SELF = "string_append_self_reads_released_buffer"
 KEY_DYN = "arena_hard_reset_without_chain_keeps_dynamic_blocks"
+KEY_FMTOOM = "string_format_heap_failure_after_inplace_attempt"
 
 
 class SubCtx:
@@ -139,6 +140,10 @@ def fixed_scripts(quick=True):
     s.append({"c": "string", "ops": [["chars", 1, 0, [], 97, 300, 0], ["chars", 1, 0, [], 98, 150, 0], ["fmts", 1, 0, [], 0, 1, 0],
                                      ["str", 1, 0, k, 0, 0, 0]]})                                              # remaining < 128: buffered path
     s.append({"c": "string", "ops": [["fmts", 3, 0, [], 1, 1, 0], ["fmts", 3, 0, k, 0, 0, 0], ["truncate", 3, 0, [], 10, 0, 0]]})
+    # formatted append / assign that needs a bigger buffer while the heap refuses it
+    s.append({"c": "string", "ops": [["chars", 1, 0, [], 97, 300, 0], ["fmts", 1, 0, k, 0, 0, 0, [0, 0, 0, 0], "", "d", 1], ["char", 1, 0, [], 98, 0, 0]]})
+    s.append({"c": "string", "ops": [["chars", 2, 0, [], 97, 300, 0], ["fmts", 2, 1, k + k, 3, 0, 0, [0, 0, 0, 0], "", "d", 1], ["char", 2, 0, [], 98, 0, 0]]})
+    s.append({"c": "string", "ops": [["chars", 1, 0, [], 97, 20, 0], ["str", 1, 0, k, 0, 0, 0, [0, 0, 0, 0], "", "d", 1], ["chars", 1, 1, [], 99, 700, 0, [0, 0, 0, 0], "", "d", 1]]})
     # a string appended to itself: within capacity / small -> large / large -> larger
     s.append({"c": "string", "ops": [["chars", 1, 0, [], 97, 10, 0], ["append_self", 1, 0, [], 0, 0, 0]]})
     s.append({"c": "string", "ops": [["chars", 1, 0, [], 97, 10, 0], ["char", 1, 0, [], 98, 0, 0], ["append_self", 1, 0, [], 0, 0, 0], ["append_self", 1, 0, [], 0, 0, 0]]})
@@ -166,6 +171,8 @@ def classify(comp, rej):
         if soft and inv == "ChainOk" and bad["st"].get("bad") and len(chain) >= cur + 2 and bad["op"][0] in ("oneshot", "zeroed", "reusable", "rzeroed", "dup", "ext"):
             return KEY_ARENA, what
     if comp == "string":
+        if bad.get("e") == "Op" and bad["op"][0] in ("fmts", "fmtd") and bad["r"][0] == "OutOfMemory" and bad.get("hit"):
+            return KEY_FMTOOM, what
         if bad.get("e") == "Op" and bad["op"][0] == "append_self" and inv == "HoldsExactly":
             return KEY_SELF, what
         if bad.get("e") == "ABORT" and idx >= 1 and recs[idx - 1].get("e") == "Note" and recs[idx - 1]["op"][0] == "append_self":
